@@ -118,6 +118,9 @@ def parseOp : List String → Option (Op × List String)
   | "TF" :: id :: k :: p :: v :: r => match id.toNat?, unhex k, unhex p with
     | some id, some k, some p => some (.setFont id k p (v == "1"), r)
     | _, _, _ => none
+  | "SG" :: st :: k :: a1 :: r => match unhex k, unhex a1 with
+    | some k, some a1 => some (.setGradient (st == "1") k a1, r)
+    | _, _ => none
   | "DI" :: id :: clip :: cm :: a1 :: r => match id.toNat?, unhex clip, unhex cm, unhex a1 with
     | some id, some clip, some cm, some a1 => some (.drawImage id clip cm a1, r)
     | _, _, _, _ => none
@@ -160,6 +163,13 @@ def parseImages : Nat → List String → Option (List (Nat × List Val) × List
     | _, _ => none
   | _, _ => none
 
+def parsePatterns : Nat → List String → Option (List (Bytes × Val) × List String)
+  | 0, ts => some ([], ts)
+  | n + 1, k :: r => match unhex k, parseVal (r.length + 1) r with
+    | some k, some (v, r2) => (parsePatterns n r2).map (fun (ps, r3) => ((k, v) :: ps, r3))
+    | _, _ => none
+  | _, _ => none
+
 /-- HIST date alpha1 nz (raw comp)* nf (ref npre vals)* ni (id nvals vals)* close(0/1) ops… -/
 def hist (ts : List String) : Option String := do
   let date :: a1 :: nz :: r := ts | none
@@ -173,6 +183,9 @@ def hist (ts : List String) : Option String := do
   let ni :: r := r | none
   let ni ← ni.toNat?
   let (imgs, r) ← parseImages ni r
+  let np :: r := r | none
+  let np ← np.toNat?
+  let (pats, r) ← parsePatterns np r
   let doClose :: r := r | none
   let ops ← parseOps (r.length + 1) r
   let missing : Bytes := asc "<<MISSING>>"
@@ -186,6 +199,9 @@ def hist (ts : List String) : Option String := do
     imageVals := fun id => match imgs.find? (fun e => e.1 == id) with
       | some (_, vs) => vs
       | none => []
+    patternVals := fun k => match pats.find? (fun e => e.1 == k) with
+      | some (_, v) => v
+      | none => .name missing
     date := date
     alpha1 := a1 }
   match run env {} ops with
